@@ -89,6 +89,10 @@ where
     })
   }
 
+  pub(crate) fn observer_count(&self) -> usize {
+    self.observers.read().unwrap().len()
+  }
+
   pub(crate) fn set_on_subscribe<F>(&self, f: F)
   where
     F: Fn(usize) + Send + Sync + 'a,
